@@ -637,35 +637,32 @@ func (a *A) ruleAllCallsApplied() int {
 // through the exhausted header - a break, a return, a goto out of the body. Exits accepted by
 // excuse (for example `return err` of a failing call) are not counted. nil when there is none.
 func loopEarlyExit(l *RLoop, excuse func(exit *ssa.BasicBlock) bool) ssa.Instruction {
-	// the natural loop: blocks reachable from the body (not through the header) that get back to
-	// the header; an edge from one of them to a block outside is an early exit
-	reachesHeader := func(from *ssa.BasicBlock) bool {
-		seen := map[*ssa.BasicBlock]bool{}
-		st := []*ssa.BasicBlock{from}
-		for len(st) > 0 {
-			x := st[len(st)-1]
-			st = st[:len(st)-1]
-			if x == l.Header {
-				return true
-			}
-			if seen[x] {
-				continue
-			}
-			seen[x] = true
-			st = append(st, x.Succs...)
+	// the natural loop of the header: the header plus every block from which a latch (a predecessor
+	// of the header that the header dominates) can be reached without passing through the header.
+	// (Not "every block that can get back to the header": inside an enclosing loop that is everything.)
+	inLoop := map[*ssa.BasicBlock]bool{l.Header: true}
+	var work []*ssa.BasicBlock
+	for _, p := range l.Header.Preds {
+		if l.Header.Dominates(p) {
+			work = append(work, p)
 		}
-		return false
 	}
-	inLoop := map[*ssa.BasicBlock]bool{}
-	for b := range l.Blocks {
-		if reachesHeader(b) {
-			inLoop[b] = true
+	for len(work) > 0 {
+		b := work[len(work)-1]
+		work = work[:len(work)-1]
+		if inLoop[b] {
+			continue
 		}
+		inLoop[b] = true
+		work = append(work, b.Preds...)
 	}
 	var bad ssa.Instruction
 	for b := range inLoop {
+		if b == l.Header {
+			continue // leaving through the exhausted header is the regular end
+		}
 		for _, s := range b.Succs {
-			if s != l.Header && !inLoop[s] {
+			if !inLoop[s] {
 				if excuse != nil && excuse(s) {
 					continue
 				}
